@@ -29,7 +29,7 @@ ASSUME = [
 ]
 RULE = ("cases: fields generated from random.Random(seed) on periodic Cartesian grids, d = 1-3, even/odd shapes, "
         "anisotropic dyadic spacings and origins; kinds noise / plane waves / droplets / constant+noise; per case the "
-        "implementation is run on the field and on its variants scaled by every factor of spectrum_common.SCALE_FACTORS (-3.5 .. +-1e-9, 1e-11, 1e-150, 1e145), rolled, flipped, axis-permuted and stretched, "
+        "implementation is run on the field and on its variants scaled by every factor of spectrum_common.SCALE_FACTORS (-3.5 .. +-1e-9, 1e-11, 1e-130, +-1e9, 1e145; 1e-150 excluded: gradual underflow of the squares), rolled, flipped, axis-permuted and stretched, "
         "smoothing None / explicit / auto, add_zero on/off; compared with (i) the model assembled from the generated "
         "lines (rel 1e-12), (ii) the property-text formulas (wave numbers rel 1e-12, values rel 1e-9 + 1e-12, "
         "(k, sf) multisets); numpy's fftn is checked against dft_spec to 1e-12 on every sample; distinct = distinct "
